@@ -58,6 +58,38 @@ end RdS
 def bytesRead (n : Nat) (bs : Bytes) : Res (Bytes × Bytes) :=
   if n ≤ bs.length then .ok (bs.take n, bs.drop n) else .err (.io .unexpectedEof)
 
+/-- single-pass implementation of `bytesRead` (the definition above measures the whole
+    remaining input on every read); installed for compiled code by the `csimp` theorem below -/
+def takeExactAux : Nat → Bytes → Bytes → Option (Bytes × Bytes)
+  | 0, acc, bs => some (acc.reverse, bs)
+  | _ + 1, _, [] => none
+  | n + 1, acc, b :: bs => takeExactAux n (b :: acc) bs
+
+def bytesReadFast (n : Nat) (bs : Bytes) : Res (Bytes × Bytes) :=
+  match takeExactAux n [] bs with
+  | some r => .ok r
+  | none => .err (.io .unexpectedEof)
+
+theorem takeExactAux_eq : ∀ (n : Nat) (acc bs : Bytes),
+    takeExactAux n acc bs =
+      if n ≤ bs.length then some (acc.reverse ++ bs.take n, bs.drop n) else none := by
+  intro n
+  induction n with
+  | zero => intro acc bs; simp [takeExactAux]
+  | succ n ih =>
+      intro acc bs
+      cases bs with
+      | nil => simp [takeExactAux]
+      | cons b t =>
+          simp only [takeExactAux, ih, List.length_cons, Nat.add_le_add_iff_right, List.reverse_cons,
+            List.append_assoc, List.singleton_append, List.take_succ_cons, List.drop_succ_cons]
+
+@[csimp] theorem bytesRead_eq_fast : @bytesRead = @bytesReadFast := by
+  funext n bs
+  unfold bytesRead bytesReadFast
+  rw [takeExactAux_eq]
+  split <;> simp
+
 def bytesSrc : Src Bytes := ⟨bytesRead⟩
 
 /-- Readers over a chunk's own buffer. -/
